@@ -121,6 +121,8 @@ def gen_opts(rng):
         o['extra_letters'] = rng.choice(['_', '.', '-', '_-', '_.-', '.-'])
     if rng.random() < 0.35:
         o['variableLengthFrags'] = True
+    if rng.random() < 0.2:
+        o['full_escape'] = True
     o['dialect'] = rng.choice(['portable', 'perl', 'grep', 'portable'])
     return o
 
